@@ -312,7 +312,10 @@ func TestVerif(t *testing.T) {
 		return
 	}
 	var cfgs []c18Cfg
-	for _, lim := range []c18Cfg{{Limit: 100, Spike: 20}, {Limit: 100, Spike: 0}, {PctLimit: 50, PctSpike: 10}, {PctLimit: 48, PctSpike: 0}} {
+	// the last three set BOTH option families (accepted by validation): the fixed limit takes precedence over the percentage
+	// one (processor README), whether the percentage limit is the larger or the smaller of the two
+	for _, lim := range []c18Cfg{{Limit: 100, Spike: 20}, {Limit: 100, Spike: 0}, {PctLimit: 50, PctSpike: 10}, {PctLimit: 48, PctSpike: 0},
+		{Limit: 100, Spike: 20, PctLimit: 75, PctSpike: 10}, {Limit: 100, Spike: 20, PctLimit: 30, PctSpike: 5}, {Limit: 120, Spike: 0, PctLimit: 50, PctSpike: 0}} {
 		for _, iv := range [][2]int64{{0, 0}, {10500, 0}, {10500, 5500}} {
 			c := lim
 			c.SoftIvMs, c.HardIvMs = iv[0], iv[1]
